@@ -27,11 +27,10 @@ def bytesStr (l : List Nat) : Str := l.map fun (b : Nat) => Int.ofNat b
 
 def xtermMask : Nat := ModShift ||| ModAlt ||| ModCtrl
 
-/-- `encodeXterm`. -/
-def encodeXterm (u : Uni) (key : Key) (deckpam decckm : Bool) : Str :=
-  -- `key.Modifiers & ModShift | key.Modifiers & ModAlt | key.Modifiers & ModCtrl`
-  let xtermMods := (key.mods &&& ModShift) ||| (key.mods &&& ModAlt) ||| (key.mods &&& ModCtrl)
-  let kc := key.keycode
+/-- The table-driven prefix of `encodeXterm` (everything up to and including the `xtermKeymap`
+    lookup): depends only on the key code, the xterm modifiers and the two key modes. `none` = fall
+    through to the text / character part. -/
+def encodeTables (kc : Int) (xtermMods : Nat) (deckpam decckm : Bool) : Option Str :=
   let plain : Option Str :=
     if xtermMods = 0 then
       match lookup kc keymap with
@@ -45,12 +44,21 @@ def encodeXterm (u : Uni) (key : Key) (deckpam decckm : Bool) : Str :=
       | none => if kc < maxRune then some (strOfRune kc) else none
     else none
   match plain with
-  | some s => s
+  | some s => some s
   | none =>
-  if kc = KeyTab ∧ xtermMods = ModShift then [27, 91, 90]   -- backtab
+  if kc = KeyTab ∧ xtermMods = ModShift then some [27, 91, 90]   -- backtab
   else
   match lookup kc xtermKeymap with
-  | some (number, final) => [27, 91] ++ decimal number ++ [59] ++ decimal ((xtermMods : Int) + 1) ++ strOfRune final
+  | some (number, final) => some ([27, 91] ++ decimal number ++ [59] ++ decimal ((xtermMods : Int) + 1) ++ strOfRune final)
+  | none => none
+
+/-- `encodeXterm`. -/
+def encodeXterm (u : Uni) (key : Key) (deckpam decckm : Bool) : Str :=
+  -- `key.Modifiers & ModShift | key.Modifiers & ModAlt | key.Modifiers & ModCtrl`
+  let xtermMods := (key.mods &&& ModShift) ||| (key.mods &&& ModAlt) ||| (key.mods &&& ModCtrl)
+  let kc := key.keycode
+  match encodeTables kc xtermMods deckpam decckm with
+  | some s => s
   | none =>
   if key.text ≠ [] ∧ key.mods &&& ModCtrl = 0 ∧ key.mods &&& ModAlt = 0 then key.text
   else if kc < maxRune then
